@@ -46,8 +46,8 @@ Fixpoint skip_comments_l (fuel : nat) (l : str) : str :=
   match fuel with
   | O => l
   | S f => match drop_while isspace l with
-           | 35 :: r => skip_comments_l f (skip_line r)
-           | l' => l'
+           | c :: r => if Nat.eqb c 35 then skip_comments_l f (skip_line r) else c :: r
+           | [] => []
            end
   end.
 Definition skip_comments (s : stream) : stream := if bad s then s else mkS (skip_comments_l (S (length (inp s))) (inp s)) false.
@@ -261,19 +261,22 @@ Definition s_prop_header : str :=
 Definition s_Conductivities : str := [67;111;110;100;117;99;116;105;118;105;116;105;101;115].
 Definition s_close : str := [41].
 
-(* the loop of PropertyLoader: while not at end of file: skip comments, read an identifier and a value, skip white space;
-   the value token is the next run of non-blank characters *)
-Fixpoint cond_entries (fuel : nat) (s : stream) : list str :=
+(* the loop of PropertyLoader (as repaired in e52f7cb): while not at end of file: skip comments, read an identifier - if
+   nothing but comments and white space was left the loop ends -, read a value - a name without a readable value is
+   BadPropertyFile -, skip white space.  The value token is the next run of non-blank characters; whether that token
+   is a number is the business of coq/Geom/CondSensors.v (c_num), here a present token counts as readable. *)
+Fixpoint cond_entries (fuel : nat) (s : stream) : option (list str) :=
   match fuel with
-  | O => []
+  | O => Some []
   | S f =>
-    if bad s then []
+    if bad s then Some []
     else match inp s with
-         | [] => []
+         | [] => Some []
          | _ => let '(s1, name) := read_word (skip_comments s) in
-                let '(s2, value) := read_word s1 in
-                if bad s2 then []          (* a failed extraction defines nothing the domains can ask for *)
-                else name :: cond_entries f (ws s2)
+                if bad s1 then Some []
+                else let '(s2, value) := read_word s1 in
+                     if bad s2 then None
+                     else match cond_entries f (ws s2) with Some r => Some (name :: r) | None => None end
          end
   end.
 
@@ -281,4 +284,4 @@ Definition lex_cond (text : str) : option (list str) :=
   let s1 := mtch s_prop_header (mkS text false) in
   let '(s2, tag) := mtch_opt s_Conductivities s1 in
   let s3 := mtch s_close s2 in
-  if negb tag || bad s3 then None else Some (cond_entries (S (length text)) s3).
+  if negb tag || bad s3 then None else cond_entries (S (length text)) s3.
